@@ -851,7 +851,9 @@ impl CompactThetaSketch {
         // undo deltas
         let mut previous = 0;
         for e in &mut entries {
-            *e += previous;
+            *e = e
+                .checked_add(previous)
+                .ok_or_else(|| Error::deserial("corrupted: invalid retained hash value"))?;
             previous = *e;
             if *e == 0 || *e >= theta {
                 return Err(Error::deserial("corrupted: invalid retained hash value"));
